@@ -8,6 +8,9 @@ OV == {<<"O1", 200000000, 1000000, 196000000, 800000>>,      \* spot above EMA, 
        <<"O1", 200000000, 12000000, 200000000, 1000000>>,      \* spot confidence beyond the maximum, EMA confidence fine
        <<"O3", 100000000, 200000, 101000000, 300000>>,
        <<"O3", 104000000, 0, 100000000, 0>>}
+SV == {<<"O2", "50000000000000000000", "1500000000000000000">>,     \* 3 % std dev x 1.96 = 5.9 %: capped at 5 %
+       <<"O2", "20000000000000000001", "0">>,                        \* a drop, a value that does not divide evenly
+       <<"O2", "50000000000000000000", "2600000000000000000">>}     \* 5.2 % x 1.96 beyond the 10 % maximum
 ES == {<<"B3", <<>>>>,
        <<"B3", <<<<5, 7, 10, 4, 5>>>>>>,                        \* tag 5: 0.7 / 0.8
        <<"B3", <<<<5, 3, 8, 1, 2>>, <<7, 9, 10, 19, 20>>>>>>,   \* tag 5 below the bank's own weight, tag 7 above
